@@ -263,6 +263,7 @@ func init() {
 		ID:    "C26",
 		Level: "exploration",
 		Rule: "seeded per-chain submission histories through WriteRoundWork: growing prefixes, exact repeats, re-submission of the previous round, round and day changes, restarts; compared after every step with a once-per-snapshot credit model via ListNodeWorks; " +
+			"in half of the runs a quarter of the submissions are stopped right before their 1st/2nd commit, the store reopened and the round submitted again; 12% of the runs are cluster runs with one Byzantine proposer (the simulator runs its side of the signing round among 6 real honest nodes and omits it from the signer mask; 25% controls with the mask complete), after which the chain advances and the real work aggregators of every node run, also after a restart (no crash, agreement on finality, history converges); " +
 			"non-trivial = at least two submissions; distinct = canonical-log digests",
 		Components: r3Components,
 		Assume:     r3Assume,
